@@ -27,4 +27,8 @@ wd = os.path.join(m.RUN, "setup"); os.makedirs(wd, exist_ok=True)
 for prop, pdef in sorted(m.registry.PROPS.items()):
     rc, out, _ = m.go_build(wd, prop, pdef, pdef.get("goflags", []))
     print("driver warm-up build", prop, ":", "ok" if rc == 0 else out[-2000:])
+    for pt in pdef.get("parts", []):
+        if pt.get("goflags"):
+            rc, out, _ = m.go_build(wd, prop, pdef, list(pdef.get("goflags", [])) + list(pt["goflags"]))
+            print("driver warm-up build", prop, pt["name"], ":", "ok" if rc == 0 else out[-2000:])
 PY
